@@ -362,21 +362,97 @@ func (c *check) baseSeed() uint64 {
 	return (simplan.Mix64(uint64(c.seed)) % (1 << 40)) + 1
 }
 
+type partOutcome struct {
+	exit      int
+	trouble   string
+	detRe     int
+	detSame   int
+	nviol     int
+	known     []knownFinding
+	buildS    float64
+	exploreS  float64
+}
+
 func (c *check) run() int {
 	t0 := time.Now()
 	defer c.cleanup()
 	c.mktmp()
+	a := &agg{digests: map[string]bool{}, coarse: map[string]bool{}, faults: map[string]int{}, probes: map[string]int{}, viol: map[string][]*simplan.Result{}}
+	parts := c.spec.Parts
+	if len(parts) == 0 {
+		parts = []part{{Harness: c.spec.Harness, Share: 1}}
+	}
+	var total partOutcome
+	base := c.baseSeed()
+	for k, pt := range parts {
+		sub := *c.spec
+		sub.Harness = pt.Harness
+		if pt.Batch > 0 {
+			sub.Batch = pt.Batch
+		}
+		cc := &check{spec: &sub, tier: c.tier, seed: c.seed, verbose: c.verbose, tmp: c.tmp}
+		o := cc.runPart(a, pt.Share, base+uint64(k)<<32)
+		if o.exit > total.exit {
+			total.exit = o.exit
+		}
+		total.trouble += o.trouble
+		total.detRe += o.detRe
+		total.detSame += o.detSame
+		total.nviol += o.nviol
+		for _, kf := range o.known {
+			total.known = appendKnown(total.known, kf)
+		}
+		total.buildS += o.buildS
+		total.exploreS += o.exploreS
+		c.bin = cc.bin
+	}
+	for _, kf := range total.known {
+		fmt.Printf("KNOWN-FINDING: property=%s %s\n", c.spec.ID, kf.What)
+	}
+	if c.tier == "thorough" && total.exit == 0 {
+		for _, p := range c.spec.RequiredProbes {
+			if a.probes[p] == 0 && a.faults[p] == 0 {
+				total.trouble += fmt.Sprintf("\nprobe %q was never hit in a thorough run: the workload does not reach what it claims", p)
+			}
+		}
+	}
+	wall := time.Since(t0).Seconds()
+	c.writeEvidence(a, wall, total.exploreS, total.buildS, total.detRe, total.detSame, total.nviol, total.known, base)
+	fmt.Printf("%s %s: %d plans (%d distinct non-trivial traces, %d shapes), %.0f simulated s, %.1fs wall (build %.1fs), determinism %d/%d, violations %d, known findings %d\n",
+		c.spec.ID, c.tier, a.evals, len(a.digests), len(a.coarse), float64(a.simMs)/1000, wall, total.buildS, total.detSame, total.detRe, total.nviol, len(total.known))
+	if total.exit == 1 {
+		return 1
+	}
+	if strings.TrimSpace(total.trouble) != "" {
+		fmt.Fprintf(os.Stderr, "vcheck: MACHINERY TROUBLE (exit 2, not a violation):%s\n", total.trouble)
+		return 2
+	}
+	return 0
+}
+
+// runPart explores one harness of the check and handles its violations.
+func (c *check) runPart(a *agg, share float64, base uint64) partOutcome {
+	var out partOutcome
+	t0 := time.Now()
 	c.bin = build(c.spec.Harness, c.spec.Race)
 	buildS := time.Since(t0).Seconds()
+	out.buildS = buildS
+	evals0 := a.evals
+	a.viol = map[string][]*simplan.Result{}
+	a.errors = nil
+	a.crashes = nil
+	a.detSample = nil
 
-	a := &agg{digests: map[string]bool{}, coarse: map[string]bool{}, faults: map[string]int{}, probes: map[string]int{}, viol: map[string][]*simplan.Result{}}
 	secs, maxPlans := c.budget()
 	if v := os.Getenv("VERIF_BUDGET_S"); v != "" {
 		if f, err := strconv.ParseFloat(v, 64); err == nil {
 			secs = f
 		}
 	}
-	base := c.baseSeed()
+	secs *= share
+	if maxPlans > 0 {
+		maxPlans = int(float64(maxPlans) * share)
+	}
 	var next uint64
 	workers := c.spec.Workers
 	if workers == 0 {
@@ -427,7 +503,7 @@ func (c *check) run() int {
 		}(w)
 	}
 	wg.Wait()
-	exploreS := time.Since(t0).Seconds() - buildS
+	out.exploreS = time.Since(t0).Seconds() - buildS
 
 	// ---- classify
 	known := loadKnown(c.spec.ID)
@@ -508,11 +584,9 @@ func (c *check) run() int {
 	}
 
 	// ---- report
-	exit := 0
 	for _, kf := range knownHit {
-		fmt.Printf("KNOWN-FINDING: property=%s %s\n", c.spec.ID, kf.What)
+		out.known = appendKnown(out.known, kf)
 	}
-	var replayPaths []string
 	for _, u := range unknown {
 		r := u.rs[0]
 		for _, x := range u.rs {
@@ -522,56 +596,37 @@ func (c *check) run() int {
 		}
 		parts := strings.SplitN(u.key, "|", 2)
 		path := c.shrinkAndWrite(r.Seed, parts[0], parts[1])
-		replayPaths = append(replayPaths, path)
 		fmt.Printf("VIOLATION property=%s replay=%s\n", c.spec.ID, path)
 		fmt.Printf("  clause=%s seed=%d witness=%s\n", parts[0], r.Seed, firstDetail(r, parts[0]))
-		exit = 1
+		out.exit = 1
 	}
 	for i, cr := range crashViol {
 		path := c.writeCrashReplay(cr, i)
 		fmt.Printf("VIOLATION property=%s replay=%s\n", c.spec.ID, path)
 		fmt.Printf("  clause=%s/crash seed=%d\n%s\n", c.spec.ID, cr.Seed, indent(tail(cr.Output, 3000)))
-		exit = 1
+		out.exit = 1
 	}
-	trouble := ""
+	out.nviol = len(unknown) + len(crashViol)
 	if len(crashTrouble) > 0 {
-		trouble = fmt.Sprintf("%d worker crash(es)/watchdog(s); first (seed %d, exit %d):\n%s", len(crashTrouble), crashTrouble[0].Seed, crashTrouble[0].Exit, crashTrouble[0].Output)
+		out.trouble += fmt.Sprintf("\n[%s] %d worker crash(es)/watchdog(s); first (seed %d, exit %d):\n%s", c.spec.Harness, len(crashTrouble), crashTrouble[0].Seed, crashTrouble[0].Exit, crashTrouble[0].Output)
 	}
 	if len(a.errors) > 0 {
-		trouble += fmt.Sprintf("\n%d plan(s) ended in harness error; first (seed %d): %s", len(a.errors), a.errors[0].Seed, a.errors[0].Error)
+		out.trouble += fmt.Sprintf("\n[%s] %d plan(s) ended in harness error; first (seed %d): %s", c.spec.Harness, len(a.errors), a.errors[0].Seed, a.errors[0].Error)
 	}
-	if a.evals == 0 {
-		trouble += "\nno plan was executed"
+	if a.evals == evals0 {
+		out.trouble += fmt.Sprintf("\n[%s] no plan was executed", c.spec.Harness)
 	}
+	out.detRe, out.detSame = detRe, detSame
 	if detRe > 0 {
 		thr := c.spec.DetThreshold
 		if thr == 0 {
 			thr = 1.0
 		}
 		if float64(detSame)/float64(detRe) < thr {
-			trouble += fmt.Sprintf("\ndeterminism self-test below threshold: %d/%d identical (need %.0f%%): %v", detSame, detRe, thr*100, detDiff)
+			out.trouble += fmt.Sprintf("\n[%s] determinism self-test below threshold: %d/%d identical (need %.0f%%): %v", c.spec.Harness, detSame, detRe, thr*100, detDiff)
 		}
 	}
-	if c.tier == "thorough" && exit == 0 {
-		for _, p := range c.spec.RequiredProbes {
-			if a.probes[p] == 0 && a.faults[p] == 0 {
-				trouble += fmt.Sprintf("\nprobe %q was never hit in a thorough run: the workload does not reach what it claims", p)
-			}
-		}
-	}
-
-	wall := time.Since(t0).Seconds()
-	c.writeEvidence(a, wall, exploreS, buildS, detRe, detSame, len(unknown)+len(crashViol), knownHit, base)
-	fmt.Printf("%s %s: %d plans (%d distinct non-trivial traces, %d shapes), %.0f simulated s, %.1fs wall (build %.1fs), determinism %d/%d, violations %d, known findings %d\n",
-		c.spec.ID, c.tier, a.evals, len(a.digests), len(a.coarse), float64(a.simMs)/1000, wall, buildS, detSame, detRe, len(unknown)+len(crashViol), len(knownHit))
-	if exit == 1 {
-		return 1
-	}
-	if strings.TrimSpace(trouble) != "" {
-		fmt.Fprintf(os.Stderr, "vcheck: MACHINERY TROUBLE (exit 2, not a violation):%s\n", trouble)
-		return 2
-	}
-	return 0
+	return out
 }
 
 func indent(s string) string { return "    " + strings.ReplaceAll(s, "\n", "\n    ") }
@@ -832,6 +887,11 @@ func (c *check) replay(path string) int {
 	}
 	if rf.Plan == nil {
 		die2("replay file carries no plan")
+	}
+	if rf.Harness != "" {
+		sub := *c.spec
+		sub.Harness = rf.Harness
+		c.spec = &sub
 	}
 	c.bin = build(c.spec.Harness, c.spec.Race)
 	attempts := 1
